@@ -147,3 +147,25 @@ Proof.
   apply (T 0%nat 1%nat 0%nat [] [] [] (cache_inv_nil gsA) (cache_inv_nil gsA) (cache_inv_nil gsA) (wfA 0 ltac:(lia)) (wfA 1 ltac:(lia)) (wfA 0 ltac:(lia)));
     vm_compute; reflexivity.
 Qed.
+
+(** induced containment implies monomorphic containment: C-O is an induced subgraph of C-O-C, hence also a monomorphic one *)
+Example ex_induced_implies_mono : sub_entry has_mono FnGM (oDef true 1) gCO gCOC = RB true.
+Proof.
+  apply (entry_induced_implies_mono has_mono has_mono_contract FnGM (oDef true 0) 1%N gCO gCOC wf_gCO wf_gCOC);
+    [split; [left; reflexivity | discriminate] | discriminate | vm_compute; reflexivity].
+Qed.
+
+(** corollaries: C-O is contained in C-O-C (get_mappings non-empty), C-O-C is not isomorphic to C-O; guards *)
+Example ex_embeddings_iff : fst (get_mappings has_mono (monos_g true) eFull 3 (gnth gsA 3) 0 (gnth gsA 0) []) <> [].
+Proof.
+  apply (embeddings_iff has_mono (monos_g true) has_mono_contract monos_g_contract gsA eFull 3 0 [] (cache_inv_nil gsA) (wfA 3 ltac:(lia)) (wfA 0 ltac:(lia)));
+    [discriminate|]. apply (has_mono_contract true _ _ gCOC gCO wf_gCOC wf_gCO). vm_compute. reflexivity.
+Qed.
+Example ex_iso_unequal_orders : fst (isomorphic has_mono eFull 3 (gnth gsA 3) 0 (gnth gsA 0) []) = false.
+Proof.
+  apply (iso_unequal_orders has_mono has_mono_contract gsA eFull 3 0 [] (cache_inv_nil gsA) (wfA 3 ltac:(lia)) (wfA 0 ltac:(lia))). vm_compute. lia.
+Qed.
+Example ex_guards : fst (step has_mono (monos_g true) gsA [eFull] (QObj false 0 None (Some 1%nat)) []) = L [tN 99; tN 1] /\
+                    fst (step has_mono (monos_g true) gsA [eFull] (QFgiT 0 1 0 1 true true 9 3 5) []) = tbool false /\
+                    fst (step has_mono (monos_g true) gsA [eFull] (QFgiT 0 0 0 1 true true 9 3 5) []) = tbool true.
+Proof. repeat split; vm_compute; reflexivity. Qed.
